@@ -86,7 +86,7 @@ func VerifC05SetOneSigma() {
 		return
 	}
 	op := vnd.Pick(9)
-	stepBoth(u, mu, op, vnd.StrOver(vnd.Len(vnd.Param("C05.KSigma", 3, 5)), setterSigma[op]))
+	stepBoth(u, mu, op, vnd.StrOver(vnd.Len(vnd.Param("C05.KSigma", 3, 4)), setterSigma[op]))
 }
 
 // setSeq: sequences: the state left by one setter feeds the next. All calls but the last take
@@ -109,8 +109,8 @@ func setSeq(depth, k, nstarts int) {
 	}
 }
 
-func VerifC05SetSeq2() { setSeq(2, vnd.Param("C05.KSeq2", 1, 2), vnd.Param("C05.Starts2", 8, 18)) }
-func VerifC05SetSeq3() { setSeq(3, vnd.Param("C05.KSeq3", 0, 1), vnd.Param("C05.Starts3", 4, 18)) }
+func VerifC05SetSeq2() { setSeq(2, vnd.Param("C05.KSeq2", 1, 2), vnd.Param("C05.Starts2", 8, 8)) }
+func VerifC05SetSeq3() { setSeq(3, vnd.Param("C05.KSeq3", 0, 0), vnd.Param("C05.Starts3", 4, 4)) }
 
 func currentValue(u *Url, op int) string {
 	switch op {
@@ -153,6 +153,66 @@ func VerifC05SetSame() {
 	stepBoth(u, mu, op, currentValue(u, op))
 }
 
+// modelOfRecord: the reference model's record with the same components as u.
+func modelOfRecord(u *Url) *model.URL {
+	mu := &model.URL{Scheme: u.scheme, Username: u.username, Password: u.password}
+	if u.host != nil {
+		mu.HasHost = true
+		mu.Host = *u.host
+	}
+	if u.port != nil {
+		mu.HasPort = true
+		mu.Port = decimalValue(*u.port)
+	}
+	if u.path.isOpaque() {
+		mu.Opaque = true
+		mu.OpaquePath = u.path.p[0]
+	} else {
+		mu.Path = append([]string{}, u.path.p...)
+	}
+	if u.query != nil {
+		mu.HasQuery = true
+		mu.Query = *u.query
+	}
+	if u.fragment != nil {
+		mu.HasFragment = true
+		mu.Fragment = *u.fragment
+	}
+	return mu
+}
+
+// VerifC05SetStep: one inductive differential step. Implementation and model start from the SAME
+// arbitrary record of the small shapes of C04's InvStep (assumed to satisfy the invariant); one setter
+// with a window argument must leave them in agreement. With InvStep this extends C05 to setter
+// sequences of any length over records of that size. A disagreement is reported only if the pre-state
+// is reachable through the public API (it is the parse of its own serialization, for both sides).
+func VerifC05SetStep() {
+	pre := symbolicRecord()
+	vnd.Assume(invHoldsViolation(pre, defaultSchemeTable) == "")
+	mu := modelOfRecord(pre)
+	href := pre.Href(false)
+	if mu.Href(false) != href {
+		return // the two records are not the same state (cannot happen for records satisfying the invariant)
+	}
+	op := vnd.Pick(9)
+	arg := vnd.Str(vnd.Len(vnd.Param("C05.KStep", 1, 2)))
+	applySetter(pre, opSetterNames[op], arg)
+	applyModelSetter(mu, op, arg)
+	if verifCheckSnap(snapImpl(pre, nil), snapModel(mu, true)) == "" {
+		return
+	}
+	// confirm through the public API
+	u, err := Parse(href)
+	m2, ok := model.Parse(href, nil)
+	if err != nil || !ok || u.Href(false) != href || m2.Href(false) != href {
+		vnd.Cover("unconfirmed-inductive", true)
+		return
+	}
+	vnd.Observe("pre", href)
+	stepBoth(u, m2, op, arg)
+	vnd.Cover("unconfirmed-inductive", true)
+}
+
 // VerifC05SetSymStart: symbolic start URL (context + short window), one setter from the value lists.
 func VerifC05SetSymStart() {
 	ci := vnd.Pick(len(ctxAbs))
@@ -168,6 +228,7 @@ func VerifC05SetSymStart() {
 
 func init() {
 	verifHarnesses["VerifC05SetOne"] = VerifC05SetOne
+	verifHarnesses["VerifC05SetStep"] = VerifC05SetStep
 	verifHarnesses["VerifC05SetSame"] = VerifC05SetSame
 	verifHarnesses["VerifC05SetOneSigma"] = VerifC05SetOneSigma
 	verifHarnesses["VerifC05SetSeq2"] = VerifC05SetSeq2
